@@ -559,6 +559,13 @@ func (e *Exec) makeInterface(st *State, x Val, from types.Type, to types.Type) T
 	if p, ok := from.(*types.Pointer); ok {
 		name = "*" + namedName(p.Elem())
 	}
+	if d := e.p.U.DT(ts); d != nil && d.Kind == "iface" {
+		for _, f := range d.Fields {
+			if f.Name == name {
+				return App(ts, fmt.Sprintf("mk_%s_%s", ts, name), e.toTerm(st, x))
+			}
+		}
+	}
 	switch ts {
 	case SNode:
 		if t, ok := e.nodeOf(st, x, name); ok {
@@ -646,6 +653,8 @@ func (e *Exec) nodeOf(st *State, x Val, name string) (Term, bool) {
 		return App(SNode, "n_obj", e.toTerm(st, x)), true
 	case "jsonString":
 		return App(SNode, "n_str", e.toTerm(st, x)), true
+	case "jsonStringOrInteger":
+		return App(SNode, "n_sori", e.toTerm(st, x)), true
 	case "jsonNumber":
 		return App(SNode, "n_num", e.toTerm(st, x)), true
 	case "jsonBool":
@@ -733,6 +742,30 @@ func (e *Exec) assertTo(st *State, x Term, t types.Type, lab string) (Term, Val,
 	_ = e.p.U
 	name := namedName(t)
 	is := func(c string, t Term) Term { return App(SBool, "(_ is "+c+")", t) }
+	if d := e.p.U.DT(x.Sort); d != nil && d.Kind == "iface" {
+		for _, f := range d.Fields {
+			if f.Name == name {
+				ok := is(fmt.Sprintf("mk_%s_%s", x.Sort, name), x)
+				return ok, e.wrap(st, App(f.Sort, f.Sel, x), lab), true
+			}
+		}
+		if it, isI := t.Underlying().(*types.Interface); isI {
+			// assertion to another interface: succeeds for the implementers of that interface
+			var alts []Term
+			for _, f := range d.Fields {
+				for _, nm := range []string{f.Name} {
+					if obj := e.p.Pkg.Types.Scope().Lookup(nm); obj != nil && types.Implements(obj.Type(), it) {
+						alts = append(alts, is(fmt.Sprintf("mk_%s_%s", x.Sort, f.Name), x))
+					}
+				}
+			}
+			ts := e.p.sortOf(t)
+			if ts == x.Sort {
+				return Or(alts...), termVal(x), true
+			}
+		}
+		return False, e.freshVal(st, "asrt", t, "fresh", True), true
+	}
 	node := x
 	nodeOK := True
 	pe := x
@@ -762,6 +795,8 @@ func (e *Exec) assertTo(st *State, x Term, t types.Type, lab string) (Term, Val,
 			return And(nodeOK, is("n_obj", node)), e.wrap(st, App("MapNode", "ov", node), lab), true
 		case "jsonString":
 			return And(nodeOK, is("n_str", node)), termVal(App(SString, "sv", node)), true
+		case "jsonStringOrInteger":
+			return And(nodeOK, is("n_sori", node)), termVal(App(SString, "soriv", node)), true
 		case "jsonNumber":
 			return And(nodeOK, is("n_num", node)), termVal(App(SReal, "nv", node)), true
 		case "jsonBool":
